@@ -296,7 +296,16 @@ def arbitrary_text(draw, tier):
         base = draw(sentences(tier))["text"]
         big = draw(st.sampled_from(["1e999", "123456789e400", "1.5E+309", "17976931348623157e292", "1e309"]))
         return {"text": (base + draw(st.sampled_from([" * ", " + ", " - "])) + big)[:256], "kind": "arbitrary"}
-    if mode == 0:
+    if mode == 0 and draw(st.integers(0, 3)) == 0:
+        # format strings whose ordering numbers are far outside 0..n-1 (beyond a machine word, or just large): always a
+        # typed failure, never an exception
+        n = draw(st.integers(1, 4))
+        nums = [draw(st.sampled_from(["0", "1", "64", "1000", "4294967296", "9223372036854775808", "99999999999999999999",
+                                      "1" + "0" * 40, "007"])) for _ in range(n)]
+        s = "".join(draw(st.sampled_from("ds")) + k for k in nums)
+        if draw(st.booleans()):
+            s = "T1:" + s
+    elif mode == 0:
         s = draw(st.text(alphabet=ALPHABET, max_size=60))
     elif mode == 1:
         s = draw(st.text(max_size=40))
